@@ -111,6 +111,8 @@ where
     ) -> SequentialReplayOutput<DB::Error> {
         let mut outcomes = Vec::with_capacity(self.block_size - start);
         for txid in start..self.block_size {
+            #[cfg(grevm_verif)]
+            crate::verif::p1("seq_exec", txid as i64);
             let outcome = match transact(txid, &self.txs[txid]) {
                 Ok(result) => TxExecutionOutcome::Executed(result),
                 Err(EVMError::Transaction(error)) => {
